@@ -2710,9 +2710,18 @@ impl<'a> Socket<'a> {
                         win_limit.min(effective_mss).min(self.cwnd_remaining())
                     };
 
-                    let offset = self.flight_size();
-                    repr.payload = self.tx_buffer.get_allocated(offset, size);
-                    offset
+                    if is_zero_window_probe && self.flight_size() > 0 {
+                        // Segments sent before the window closed are still unacknowledged: probe
+                        // with the first of their octets. An empty probe behind them would get
+                        // no reply once the window has reopened, and they would never be resent.
+                        repr.seq_number = self.local_seq_no;
+                        repr.payload = self.tx_buffer.get_allocated(0, size);
+                        0
+                    } else {
+                        let offset = self.flight_size();
+                        repr.payload = self.tx_buffer.get_allocated(offset, size);
+                        offset
+                    }
                 };
 
                 // If we've sent everything we had in the buffer, follow it with the PSH or FIN
